@@ -2428,3 +2428,107 @@ func receiverFactsAt(g *ssa.Function, cs *ssa.Call) map[*types.Var]bool {
 	}
 	return facts
 }
+
+// ---- ERR-OVERWRITE -------------------------------------------------------------
+//
+// The Reader's sticky error is a field. An error stored there is reported only
+// if somebody looks at the field before it is assigned again: a store of a value
+// that may be a failure, followed on some path by another store to the field
+// with no load of it in between, is a failure swallowed. The paths run through
+// calls: a helper that leaves a failure in the field "returns it" that way, and
+// a caller that then does `bg.err = bg.nextBlock()` with a nextBlock that did
+// not look (twelfth-round seed C09-n, after the protocol rules had been made to
+// survive the extraction of that helper) overwrites it with nil.
+//
+// For the methods of bgzf.Reader: pending(F) – F can return with a possibly
+// non-nil store to the field unobserved – is computed as a fixpoint over the
+// static call graph; an obligation per function: no pending store (direct, or
+// left by a callee on the same receiver) reaches a direct store to the field
+// without passing a load of the field.
+func ruleErrOverwrite(c *Ctx, r *Rep, tier string) {
+	rule := "ERR-OVERWRITE"
+	errF := c.Field("bgzf", "Reader", "err")
+	var fns []*ssa.Function
+	for _, fn := range c.FuncsIn("bgzf") {
+		if fn.Blocks == nil || len(fn.Params) == 0 || fn.Signature.Recv() == nil {
+			continue
+		}
+		if !strings.Contains(fn.Signature.Recv().Type().String(), "bgzf.Reader") {
+			continue
+		}
+		fns = append(fns, fn)
+	}
+	onRecv := func(fn *ssa.Function, addr ssa.Value) bool {
+		fa, ok := addr.(*ssa.FieldAddr)
+		return ok && fieldVarOfAddr(fa) == errF && origin(fa.X) == ssa.Value(fn.Params[0])
+	}
+	isLoad := func(fn *ssa.Function) func(ssa.Instruction) bool {
+		return func(x ssa.Instruction) bool {
+			u, ok := x.(*ssa.UnOp)
+			return ok && u.Op == token.MUL && onRecv(fn, u.X)
+		}
+	}
+	isStore := func(fn *ssa.Function) func(ssa.Instruction) bool {
+		return func(x ssa.Instruction) bool {
+			st, ok := x.(*ssa.Store)
+			return ok && onRecv(fn, st.Addr)
+		}
+	}
+	pending := map[*ssa.Function]bool{}
+	sources := func(fn *ssa.Function) []ssa.Instruction {
+		var out []ssa.Instruction
+		allInstrs(fn, func(x ssa.Instruction) {
+			switch y := x.(type) {
+			case *ssa.Store:
+				if onRecv(fn, y.Addr) && !isNilConst(y.Val) {
+					out = append(out, x)
+				}
+			case *ssa.Call:
+				if g := staticCallee(&y.Call); g != nil && pending[g] && len(y.Call.Args) > 0 && origin(y.Call.Args[0]) == ssa.Value(fn.Params[0]) {
+					out = append(out, x)
+				}
+			}
+		})
+		return out
+	}
+	for changed := true; changed; {
+		changed = false
+		for _, fn := range fns {
+			if pending[fn] {
+				continue
+			}
+			ld := isLoad(fn)
+			stf := isStore(fn)
+			for _, src := range sources(fn) {
+				if _, reach := pathTo(locOf(src), isReturn, func(x ssa.Instruction) bool { return ld(x) || stf(x) }, nil); reach {
+					pending[fn] = true
+					changed = true
+					break
+				}
+			}
+		}
+	}
+	for _, fn := range fns {
+		srcs := sources(fn)
+		if len(srcs) == 0 {
+			continue
+		}
+		r.Instance(rule, 1)
+		key := c.FnName(fn) + "#error-observed"
+		ld := isLoad(fn)
+		stf := isStore(fn)
+		why := ""
+		for _, src := range srcs {
+			// a store whose value is the result of the source call itself (bg.err = bg.f())
+			// is the first thing after it: still an overwrite of what f left in the field
+			if bad, reach := pathTo(locOf(src), stf, ld, nil); reach {
+				what := "the failure stored at " + c.Pos(src.Pos())
+				if cl, ok := src.(*ssa.Call); ok {
+					what = "the failure " + staticCallee(&cl.Call).Name() + " can leave in the field (" + c.Pos(src.Pos()) + ")"
+				}
+				why = what + " is overwritten at " + c.Pos(bad.Pos()) + " without the field having been read in between: the error of that read is swallowed – the caller sees a clean result, and the state the failure left (a block without data, a parked read-ahead goroutine) is carried on with"
+			}
+		}
+		r.Check(why == "", rule, key, c.Pos(fn.Pos()), fmt.Sprintf("every possibly failing store to Reader.err (%d, callees that leave one included) is read before the field is assigned again", len(srcs)), why)
+	}
+}
